@@ -332,6 +332,23 @@ Record dobs := {
 Definition obs_d (s : state) (d : dobj) : dobs :=
   {| do_meta := d_meta d; do_ents := hget (st_heap s) (d_ents d); do_rels := hget (st_heap s) (d_rels d); do_tables := d_tables d |}.
 
+(* ---- PipelineBuilder.from_config(cfg) ----
+   A builder made from a configuration DOCUMENT (here: what a built pipeline shows of itself, `obs_p`) by the builder's own calls on
+   a NEW builder with handle i: create_input / literal (every literal node of the document, referenced or not) / add_component with an
+   instance made for the occasion, connect for every component, the alias table, the default.  Pipeline.from_config(cfg) is this followed by build();
+   clone() is Pipeline.from_config(own configuration) = PClone. *)
+Definition nspec_of (kc : string * option (dict string)) : nspec :=
+  if String.eqb (fst kc) "@input" then NSIn
+  else if String.eqb (fst kc) "@literal" then NSLit (match snd kc with Some ((_, v) :: _) => v | _ => "" end)
+  else NSInst (fst kc).
+Definition wire_all (d : dict string) (w : dict string) : dict string :=
+  fold_left (fun w kv => dset (fst kv) (snd kv) w) d w.
+Definition from_config_ops (i : nat) (o : pobs) : list op :=
+  PNew (po_name o)
+  :: map (fun n => PBNode i (fst n) (nspec_of (snd n))) (po_nodes o)
+  ++ map (fun e => PBWire i (fst e) (wire_all (match snd e with Some d => d | None => [] end))) (po_edges o)
+  ++ [PBAlias i (fun _ => po_aliases o); PBDefault i (po_default o)].
+
 (* ---- comparison with what the harness observed (correspondence cases) ---- *)
 Fixpoint sdict_eqb (a b : dict string) : bool :=
   match a, b with
@@ -367,4 +384,27 @@ Fixpoint trace_ok (s : state) (steps : list (list op * (list pobs * list dobs)))
   match steps with
   | [] => true
   | (os, (ps, ds)) :: rest => let s' := run s os in snapshot_ok s' ps ds && trace_ok s' rest
+  end.
+
+(* the same comparison with the observations written as DIFFERENCES (an object that does not change is observed identically after every
+   step, and the case files repeat it thousands of times otherwise): None = this object was observed exactly as after the previous step.
+   A None with nothing before it is malformed and makes the trace fail. *)
+Fixpoint fill {X} (prev : list X) (cur : list (option X)) : option (list X) :=
+  match cur with
+  | [] => Some []
+  | c :: cur' =>
+      match (match c with Some x => Some x | None => hd_error prev end), fill (tl prev) cur' with
+      | Some x, Some r => Some (x :: r)
+      | _, _ => None
+      end
+  end.
+Fixpoint trace_ok_d (s : state) (pp : list pobs) (pd : list dobs)
+    (steps : list (list op * (list (option pobs) * list (option dobs)))) : bool :=
+  match steps with
+  | [] => true
+  | (os, (ps, ds)) :: rest =>
+      match fill pp ps, fill pd ds with
+      | Some ps', Some ds' => let s' := run s os in snapshot_ok s' ps' ds' && trace_ok_d s' ps' ds' rest
+      | _, _ => false
+      end
   end.
